@@ -391,7 +391,7 @@ def _payload_reads(R, g, rd):
     return out
 
 
-def route(R):
+def route(R, RID='C05.route'):
     q = 'frame_parser.FrameParser.parse'
     recv = 'frame_parser.ClientFrameParser'
     g = R.cfg(q, recv)
@@ -430,13 +430,13 @@ def route(R):
     for (y, call) in text_reads:
         pcs = path_conditions(R, g, rd, start, y)
         bad = [sorted(l) for l in pcs if not is_text_path(l)]
-        R.ob('C05.route', 'validating read only for text', not bad,
+        R.ob(RID, 'validating read only for text', not bad,
              'a non-text frame (e.g. Ping between text fragments, or binary) can be read through the UTF-8 '
              'validating reader; path conditions: %s' % (bad[:1],), func=f, node=y.stmt)
     for (y, call) in raw_reads:
         pcs = path_conditions(R, g, rd, start, y)
         bad = [sorted(l) for l in pcs if not not_text_path(l)]
-        R.ob('C05.route', 'raw read never for text', not bad,
+        R.ob(RID, 'raw read never for text', not bad,
              'a TEXT frame or a continuation of a text message can be read without incremental validation; '
              'path conditions: %s' % (bad[:1],), func=f, node=y.stmt)
     # every frame with a payload reads it: from `start`, paths to `yield frame` with payload_length true pass a read
@@ -457,9 +457,9 @@ def route(R):
         else:
             gs = guards_of(g2, r)
             ok = any(txt == 'self._compression' and pol for (txt, pol, _) in gs)
-            R.ob('C05.route', 'non-validating text read only under compression', ok,
+            R.ob(RID, 'non-validating text read only under compression', ok,
                  'read_text returns a non-validating reader without compression being enabled', func=f2, node=r.ast)
-    R.ob('C05.route', 'read_text has a validating arm', len(val_rets) >= 1, 'read_text never returns a validating '
+    R.ob(RID, 'read_text has a validating arm', len(val_rets) >= 1, 'read_text never returns a validating '
          'reader', func=f2, node=f2.node, construct='read_text validating arm')
     for r in val_rets:
         v = r.ast.value
@@ -470,10 +470,10 @@ def route(R):
                 a = kw.value
         if a is None and len(v.args) >= 2:
             a = v.args[1]
-        R.ob('C05.route', 'per-parser validator', a is not None and U(a) == 'self._utf8_validator',
+        R.ob(RID, 'per-parser validator', a is not None and U(a) == 'self._utf8_validator',
              'read_utf8 is given %s instead of the parser\'s persistent validator' % U(a), func=f2, node=v)
         n_arg = v.args[0] if v.args else None
-        R.ob('C05.route', 'length forwarded', n_arg is not None and is_param(rd2, r, n_arg),
+        R.ob(RID, 'length forwarded', n_arg is not None and is_param(rd2, r, n_arg),
              'read_utf8 length is not the requested length', func=f2, node=v)
 
 
